@@ -106,6 +106,27 @@ def prepare_case(case, reset=True) -> Prepared:
 
 # --------------------------------------------------------------------------- canonical values
 
+def plain_typed(v):
+    """like koreo_util.plain, but CEL values without a JSON counterpart keep their TYPE: a timestamp / duration / bytes
+    / uint becomes a one-key map {"$ts": iso} / {"$dur": seconds} / {"$bytes": hex} / {"$uint": n} — the shape in which
+    the generators (and the model, for which values are opaque) carry such values"""
+    from celpy import celtypes
+
+    if isinstance(v, celtypes.TimestampType):
+        return {"$ts": str(v)}
+    if isinstance(v, celtypes.DurationType):
+        return {"$dur": int(v.total_seconds())}
+    if isinstance(v, celtypes.BytesType):
+        return {"$bytes": bytes(v).hex()}
+    if isinstance(v, celtypes.UintType):
+        return {"$uint": int(v)}
+    if isinstance(v, dict):
+        return {ku.plain(k): plain_typed(x) for k, x in v.items()}
+    if isinstance(v, (list, tuple)):
+        return [plain_typed(x) for x in v]
+    return ku.plain(v)
+
+
 def canon_value(v):
     """plain JSON with the rendered Skip/DepSkip strings of forEach lists replaced by markers"""
     global _SKIP_PATS
@@ -132,7 +153,7 @@ def outcome_abs(o):
     if c == "ok":
         from koreo import result
 
-        d["v"] = canon_unordered(canon_value(ku.plain(o.data if isinstance(o, result.Ok) else o)))
+        d["v"] = canon_unordered(canon_value(plain_typed(o.data if isinstance(o, result.Ok) else o)))
     return d
 
 
@@ -328,13 +349,14 @@ def run_prepared(prep: Prepared, order=None, faults=None, objects=None, trigger=
     labels = {s["label"] for s in main_steps(case)}
     obs = {"raised": raised, "elapsed": elapsed, "units": units,
            "log": [[e["method"], e["name"]] for e in cl.log],
+           "lookups": list(cl.lookups),      # kind-discovery calls (`lookup_kind`) that reached the API
            "events": rec.events(labels), "nevents": nested_events(rec, labels), "cluster": cl, "task_tree": tree}
     if res is not None:
         conds = [[c.get("type"), c.get("reason"), c.get("status")] for c in res.conditions]
         obs.update({
             "overall": outcome_abs(res.result),
-            "state": canon_unordered(canon_value(ku.plain(res.state))),
-            "state_plain": canon_value(ku.plain(res.state)),
+            "state": canon_unordered(canon_value(plain_typed(res.state))),
+            "state_plain": canon_value(plain_typed(res.state)),
             "stateErrors": sorted(res.state_errors),
             "conditions": conds,
             "classes": {t[1:]: REASON_CLASS.get(r, "?" + str(r)) for t, r, _ in conds if t != "Ready" and t[1:] in labels},
@@ -368,7 +390,7 @@ def run_sub(prep: Prepared, name: str, trigger, objects=None):
             api=cl, workflow_key=name, owner=("ns", dict(ku.OWNER_REF)),
             trigger=celpy.json_to_cel(copy.deepcopy(trigger)), workflow=wf))
         out["overall"] = outcome_abs(res.result)
-        out["state"] = canon_unordered(canon_value(ku.plain(res.state)))
+        out["state"] = canon_unordered(canon_value(plain_typed(res.state)))
     except (KeyboardInterrupt, SystemExit):
         raise
     except BaseException as e:
